@@ -10,7 +10,7 @@ use serde_json::{json, Value};
 pub struct P;
 pub static C18: P = P;
 
-pub const WAYS: [&str; 16] = [
+pub const WAYS: [&str; 18] = [
     "class + user sheet .h{display:none}",
     "style=\"display:none\" (document CSS enabled)",
     "style=\"height:0;overflow:hidden\"",
@@ -27,6 +27,8 @@ pub const WAYS: [&str; 16] = [
     "class + selector list #nomatch, .h, p.zz{display:none}",
     "a class name using every identifier character: .h0123456789_-azAZ{display:none}",
     "descendant selector with a compound ancestor: T.w .h{display:none}, T the outermost ancestor's tag, every ancestor carrying class w",
+    "NOT hidden: style=\"overflow:hidden\" alone (half of the zero-height idiom)",
+    "NOT hidden: style=\"height:0\" alone (half of the zero-height idiom)",
 ];
 
 #[derive(Serialize, Deserialize)]
@@ -60,6 +62,8 @@ fn mark(d: &[N], p: &[usize], way: usize) -> String {
             0 | 4 | 5 | 6 | 8 | 9 | 10 | 11 | 12 | 13 => attrs.push(("class".into(), "h".into())),
             14 => attrs.push(("class".into(), "h0123456789_-azAZ".into())),
             15 => attrs.push(("class".into(), "h".into())),
+            16 => attrs.push(("style".into(), "overflow:hidden".into())),
+            17 => attrs.push(("style".into(), "height:0".into())),
             1 => attrs.push(("style".into(), "display:none".into())),
             2 => attrs.push(("style".into(), "height:0;overflow:hidden".into())),
             3 => attrs.push(("id".into(), "hh".into())),
@@ -120,6 +124,21 @@ fn cfg_for(way: usize, rich: bool, tag: &str) -> Cfg {
 
 fn check(c: &Case, tag: &str, cx: &mut Cx) {
     let cfg = cfg_for(c.way, c.rich, &c.tag);
+    if c.way == 16 || c.way == 17 {
+        // half of the idiom styles nothing: the document renders as without the attribute
+        let a = cx.render(c.marked.as_bytes(), c.width, &cfg);
+        let b = cx.render(c.original.as_bytes(), c.width, &cfg);
+        cx.state(2);
+        if a.is_ok() {
+            cx.set_case_hash(crate::util::h64_parts(&[c.marked.as_bytes(), &c.width.to_le_bytes(), &[c.way as u8, c.rich as u8]]));
+            cx.nontrivial();
+        }
+        if a != b {
+            let class = format!("<{tag}> changed although only half of the idiom is present: {}", WAYS[c.way]);
+            cx.violation(&class, || json!({"case": serde_json::to_value(c).unwrap(), "cfg": cfg.as_rust(), "with_attribute": format!("{a:?}"), "without": format!("{b:?}")}));
+        }
+        return;
+    }
     if (8..=10).contains(&c.way) || (c.way == 12 && !c.designated) {
         // a sheet whose selector matches no element must change nothing
         let plain_cfg = if c.rich { Cfg::rich() } else { Cfg::plain() }.with(Opt::DocCss);
@@ -215,7 +234,7 @@ impl Prop for P {
     fn build(&self, tier: Tier) -> Box<dyn Scope> {
         let docs = block_docs(tier.pick(2, 3), G { tables: true, pre: true, valid_only: true });
         let docs: Vec<Vec<N>> = if tier == Tier::Thorough { docs.into_iter().step_by(2).collect() } else { docs };
-        Box::new(S { docs, widths: tier.pick(vec![1, 2, 3, 4, 5, 6, 8, 10, 14, 20], (1..=24).chain([30, 40, 60, 100]).collect()), ways: tier.pick(vec![0, 1, 2, 3, 4, 8, 9, 11, 12, 13, 14, 15], vec![0, 1, 2, 3, 4, 5, 6, 7, 8, 9, 10, 11, 12, 13, 14, 15]) })
+        Box::new(S { docs, widths: tier.pick(vec![1, 2, 3, 4, 5, 6, 8, 10, 14, 20], (1..=24).chain([30, 40, 60, 100]).collect()), ways: tier.pick(vec![0, 1, 2, 3, 4, 8, 9, 11, 12, 13, 14, 15, 16, 17], vec![0, 1, 2, 3, 4, 5, 6, 7, 8, 9, 10, 11, 12, 13, 14, 15, 16, 17]) })
     }
     fn replay(&self, case: &Value, cx: &mut Cx) {
         let c: Case = serde_json::from_value(case.clone()).expect("C18 case");
